@@ -450,3 +450,179 @@ k_c07_range_seek!(k_c07_range_seek_k1_u32_u64_p24, u32, u64, u32, 24, 1);
 k_c07_range_seek!(k_c07_range_seek_k2_u8_u16_p4, u8, u16, u8, 4, 2);
 k_c07_range_seek!(k_c07_range_seek_k2_u8_u16_p8, u8, u16, u8, 8, 2);
 k_c07_range_seek!(k_c07_range_seek_k2_u16_u32_p12, u16, u32, u16, 12, 2);
+
+/// C02 / C11 `c02_rt_from_inverted` / `c11_suffix_inverted`: the same cut as `k_range_rt`, but the encoder
+/// starts in an INVERTED situation (n held-back words, first one `w`). The matching decoder has already
+/// consumed the held-back words, so it starts from the same `(lower, range)` with its point window taken
+/// from the words that FOLLOW the (now resolved) held-back words in the sealed output. Together with the
+/// Normal-state cut this makes the round-trip argument inductive over carry situations of any length.
+macro_rules! k_range_rt_inv {
+    ($name:ident, $W:ty, $S:ty, $Pr:ty, $P:expr, $K:expr, $NSUF:expr) => {
+        #[no_mangle]
+        pub extern "C" fn $name(lower: $S, range: $S, n: u32, w: $W, cuts: &[$Pr; 2 * $K], syms: &[u8; $K], suffix: &[$W; $NSUF + 1]) -> u32 {
+            const NQ: usize = 2 * $K + 8 + $NSUF;
+            let st = match RangeCoderState::<$W, $S>::new(lower, range) {
+                Ok(s) => s,
+                Err(_) => return 1,
+            };
+            if lower.wrapping_add(range) > lower || n == 0 || n > 3 || w == <$W>::MAX {
+                return 1;
+            }
+            let mut ms = [Cuts::<$Pr, $P> { c1: 1, c2: 2 }; $K];
+            let mut i = 0;
+            while i < $K {
+                ms[i] = Cuts::<$Pr, $P> { c1: cuts[2 * i], c2: cuts[2 * i + 1] };
+                if !ms[i].valid() || syms[i] > 2 {
+                    return 1;
+                }
+                i += 1;
+            }
+            let q = ArrQueue::<$W, NQ> { words: [0; NQ], len: 0, rpos: 0 };
+            let sit = EncoderSituation::Inverted(NonZeroUsize::new(n as usize).unwrap(), w);
+            let mut enc = RangeEncoder::<$W, $S, _>::from_raw_parts(q, st, sit);
+            let mut i = 0;
+            while i < $K {
+                if enc.encode_symbol(syms[i], ms[i]).is_err() {
+                    return 2;
+                }
+                i += 1;
+            }
+            let mut q = match enc.into_compressed() {
+                Ok(q) => q,
+                Err(_) => return 3,
+            };
+            if q.len < n as usize + 1 {
+                return 12; // the held-back words and at least one sealing word must have been emitted
+            }
+            // the held-back words resolve to (w, MAX, ...) or (w+1, 0, ...)
+            let carried = q.words[0] != w;
+            if carried && q.words[0] != w + 1 {
+                return 14;
+            }
+            let mut i = 1;
+            while i < n as usize {
+                if q.words[i] != (if carried { 0 } else { <$W>::MAX }) {
+                    return 15;
+                }
+                i += 1;
+            }
+            let mut i = 0;
+            while i < $NSUF {
+                if q.write(suffix[i]).is_err() {
+                    return 13;
+                }
+                i += 1;
+            }
+            // decoder point: SB/WB words following the held-back words (zero padded)
+            let mut point: $S = 0;
+            let mut j = 0usize;
+            while j < (<$S>::BITS / <$W>::BITS) as usize {
+                let idx = n as usize + j;
+                let wd: $W = if idx < q.len { q.words[idx] } else { 0 };
+                point = (point << <$W>::BITS) | (wd as $S);
+                j += 1;
+            }
+            q.rpos = if q.len < n as usize + j { q.len } else { n as usize + j };
+            let mut dec = match RangeDecoder::<$W, $S, _>::from_raw_parts(q, st, point) {
+                Ok(d) => d,
+                Err(_) => return 8,
+            };
+            let mut i = 0;
+            while i < $K {
+                let d = match dec.decode_symbol(ms[i]) {
+                    Ok(d) => d,
+                    Err(_) => return 9,
+                };
+                if d != syms[i] {
+                    return 4;
+                }
+                i += 1;
+            }
+            if $NSUF == 0 && !dec.maybe_exhausted() {
+                return 10;
+            }
+            0
+        }
+    };
+}
+k_range_rt_inv!(k_c02_rt_inv_k1_u8_u16_p4, u8, u16, u8, 4, 1, 0);
+k_range_rt_inv!(k_c02_rt_inv_k1_u8_u16_p8, u8, u16, u8, 8, 1, 0);
+k_range_rt_inv!(k_c02_rt_inv_k1_u16_u32_p12, u16, u32, u16, 12, 1, 0);
+k_range_rt_inv!(k_c02_rt_inv_k1_u16_u32_p16, u16, u32, u16, 16, 1, 0);
+k_range_rt_inv!(k_c02_rt_inv_k1_u32_u64_p24, u32, u64, u32, 24, 1, 0);
+k_range_rt_inv!(k_c02_rt_inv_k1_u32_u64_p32, u32, u64, u32, 32, 1, 0);
+k_range_rt_inv!(k_c11_suffix_inv_k1_u8_u16_p4, u8, u16, u8, 4, 1, 3);
+k_range_rt_inv!(k_c11_suffix_inv_k1_u8_u16_p8, u8, u16, u8, 8, 1, 3);
+k_range_rt_inv!(k_c11_suffix_inv_k1_u16_u32_p12, u16, u32, u16, 12, 1, 3);
+k_range_rt_inv!(k_c11_suffix_inv_k1_u16_u32_p16, u16, u32, u16, 16, 1, 3);
+k_range_rt_inv!(k_c11_suffix_inv_k1_u32_u64_p24, u32, u64, u32, 24, 1, 3);
+k_range_rt_inv!(k_c11_suffix_inv_k1_u32_u64_p32, u32, u64, u32, 32, 1, 3);
+
+/// C07 `c07_range_seek_from_inverted`: a snapshot taken WHILE n words are held back for a pending carry
+/// (any raw Inverted state, n <= 3) is handed to a seekable decoder over the finished data: decoding from
+/// there yields the symbol encoded after the snapshot; the final snapshot leaves the decoder possibly exhausted.
+macro_rules! k_c07_range_seek_inv {
+    ($name:ident, $W:ty, $S:ty, $Pr:ty, $P:expr) => {
+        #[no_mangle]
+        pub extern "C" fn $name(lower: $S, range: $S, n: u32, w: $W, c1: $Pr, c2: $Pr, sym: u8, order: u32) -> u32 {
+            use constriction::backends::Cursor;
+            const NQ: usize = 10;
+            if order > 1 {
+                return 1;
+            }
+            let st = match RangeCoderState::<$W, $S>::new(lower, range) {
+                Ok(s) => s,
+                Err(_) => return 1,
+            };
+            if lower.wrapping_add(range) > lower || n == 0 || n > 3 || w == <$W>::MAX {
+                return 1;
+            }
+            let m = Cuts::<$Pr, $P> { c1, c2 };
+            if !m.valid() || sym > 2 {
+                return 1;
+            }
+            let q = ArrQueue::<$W, NQ> { words: [0; NQ], len: 0, rpos: 0 };
+            let sit = EncoderSituation::Inverted(NonZeroUsize::new(n as usize).unwrap(), w);
+            let mut enc = RangeEncoder::<$W, $S, _>::from_raw_parts(q, st, sit);
+            let p0 = enc.pos();
+            if enc.encode_symbol(sym, m).is_err() {
+                return 2;
+            }
+            let p1 = enc.pos();
+            let q = match enc.into_compressed() {
+                Ok(q) => q,
+                Err(_) => return 3,
+            };
+            let data: &[$W] = &q.words[..q.len];
+            let mut dec = match RangeDecoder::<$W, $S, _>::with_backend(Cursor::new_at_write_beginning(data)) {
+                Ok(d) => d,
+                Err(_) => return 8,
+            };
+            let mut round = 0;
+            while round < 2 {
+                let first = (round == 0) == (order == 0);
+                if first {
+                    if dec.seek(p0).is_err() {
+                        return 5;
+                    }
+                    match dec.decode_symbol(m) {
+                        Ok(d) if d == sym => {}
+                        Ok(_) => return 4,
+                        Err(_) => return 9,
+                    }
+                } else if dec.seek(p1).is_err() {
+                    return 5;
+                }
+                if !dec.maybe_exhausted() {
+                    return 10;
+                }
+                round += 1;
+            }
+            0
+        }
+    };
+}
+k_c07_range_seek_inv!(k_c07_range_seek_inv_u8_u16_p4, u8, u16, u8, 4);
+k_c07_range_seek_inv!(k_c07_range_seek_inv_u8_u16_p8, u8, u16, u8, 8);
+k_c07_range_seek_inv!(k_c07_range_seek_inv_u16_u32_p12, u16, u32, u16, 12);
+k_c07_range_seek_inv!(k_c07_range_seek_inv_u32_u64_p24, u32, u64, u32, 24);
